@@ -44,6 +44,10 @@ def specs_for(progs, sem, tier, rng):
                     continue
                 specs.append(psrun.make_spec(p, s, {"kind": "random", "seed": rng.randrange(1 << 30), "penv": rng.choice([0.3, 0.8])},
                                              name="%s#%sv%d" % (p["name"], mode, k), vdr=mode, files=True, vdr_jitter=300, **kw))
+            if p["name"] == "vf_strict_bare":
+                for k in range(2):
+                    specs.append(psrun.make_spec(p, s, {"kind": "random", "seed": rng.randrange(1 << 30), "penv": rng.choice([0.3, 0.8])},
+                                                 name="%s#%sbare%d" % (p["name"], mode, k), vdr=mode, files=True, bare=True))
             # a job fails, mrp exits between partial and final cleanup, a fresh runtime
             # re-attaches with the fault removed and completes
             jobs = [j["key"] for j in psprops.expected_jobs(s)]
